@@ -973,6 +973,29 @@ func (ci *corrInfo) leafOn(v ssa.Value, st *pathFacts) ssa.Value {
 	return v
 }
 
+// valuesAt: the values v denotes at instruction `at` over all feasible paths from the function's entry, each followed through
+// the joins whose entering edge the path determines (a variable assigned together with the flag that guards its use).
+func valuesAt(f *ssa.Function, at ssa.Instruction, v ssa.Value) (vals []ssa.Value, reached bool) {
+	ci := corrOf(f)
+	seen := map[ssa.Value]bool{}
+	canReachFrom(f, nil, nil, -1, func(in ssa.Instruction) bool {
+		if in != at {
+			return false
+		}
+		reached = true
+		r := v
+		if ci.cur != nil {
+			r = ci.leafOn(v, ci.cur)
+		}
+		if !seen[r] {
+			seen[r] = true
+			vals = append(vals, r)
+		}
+		return false
+	}, PathQ{})
+	return vals, reached
+}
+
 // valuesAlong: the values v denotes at instruction `at` on the paths from the function's entry that take edge e, each
 // followed through the joins whose entering edge the path determines.
 func valuesAlong(f *ssa.Function, e ifEdge, at ssa.Instruction, v ssa.Value, stop func(ssa.Instruction) bool) (vals []ssa.Value, reached bool) {
